@@ -131,24 +131,78 @@ def run(chk, repo):
             ctxt = " and ".join(("" if p else "not ") + unparse(c) for c, p in conds) or "always"
             rel_hi = [relation(c, p, el, "high") for c, p in at]
             rel_lo = [relation(c, p, el, "low") for c, p in at]
+            el_le_hi = any(r in ("<", "<=", "==") for r in rel_hi)
+            el_ge_hi = any(r in (">", ">=", "==") for r in rel_hi)
+            el_ge_lo = any(r in (">", ">=", "==") for r in rel_lo)
+            el_le_lo = any(r in ("<", "<=", "==") for r in rel_lo)
+            ordered = guard_seen or lown or highn        # low <= high known (guard) or irrelevant
+
+            def args_of(e, fn):
+                return list(e.args) if isinstance(e, ast.Call) and unparse(e.func) == fn and not e.keywords else None
+
+            def upper(e):       # e <= high
+                t = unparse(e)
+                if t == "high":
+                    return True
+                if t == el:
+                    return el_le_hi
+                if t == "low":
+                    return ordered and not lown
+                a = args_of(e, "min")
+                if a:
+                    return any(upper(x) for x in a)
+                a = args_of(e, "max")
+                if a:
+                    return all(upper(x) for x in a)
+                return False
+
+            def lower(e):       # e >= low
+                t = unparse(e)
+                if t == "low":
+                    return True
+                if t == el:
+                    return el_ge_lo
+                if t == "high":
+                    return ordered and not highn
+                a = args_of(e, "max")
+                if a:
+                    return any(lower(x) for x in a)
+                a = args_of(e, "min")
+                if a:
+                    return all(lower(x) for x in a)
+                return False
+
+            def keeps(e):       # e == el whenever el already lies within the (given) limits
+                t = unparse(e)
+                if t == el:
+                    return True
+                if t == "high":
+                    return el_ge_hi and not highn
+                if t == "low":
+                    return el_le_lo and not lown
+                a = args_of(e, "min")
+                if a and len(a) == 2:
+                    others = [x for x in a if unparse(x) != "high"]
+                    return len(others) == 1 and keeps(others[0]) and not highn
+                a = args_of(e, "max")
+                if a and len(a) == 2:
+                    others = [x for x in a if unparse(x) != "low"]
+                    return len(others) == 1 and keeps(others[0]) and not lown
+                return False
             problems = []
-            if vt == el:
-                if not highn and not any(r in ("<", "<=", "==") for r in rel_hi):
-                    problems.append("sample returned without a guard implying it is <= high")
-                if not lown and not any(r in (">", ">=", "==") for r in rel_lo):
-                    problems.append("sample returned without a guard implying it is >= low")
-            elif vt == "high":
-                if highn:
-                    problems.append("returns high although high is None")
-                if not any(r in (">", ">=", "==") for r in rel_hi):
-                    problems.append("high replaces a sample not known to be on or above it")
-            elif vt == "low":
-                if lown:
-                    problems.append("returns low although low is None")
-                if not any(r in ("<", "<=", "==") for r in rel_lo):
-                    problems.append("low replaces a sample not known to be on or below it")
-            else:
-                problems.append("leaf value '%s' is neither the sample nor a limit" % vt)
+            names_used = {n.id for n in ast.walk(val) if isinstance(n, ast.Name)} - {"min", "max"}
+            if not names_used <= {el, "low", "high"}:
+                problems.append("leaf value '%s' is not built from the sample and the limits" % vt)
+            if highn and "high" in names_used:
+                problems.append("uses high although high is None")
+            if lown and "low" in names_used:
+                problems.append("uses low although low is None")
+            if not highn and not upper(val):
+                problems.append("value not known to be <= high under [%s]" % ctxt)
+            if not lown and not lower(val):
+                problems.append("value not known to be >= low under [%s]" % ctxt)
+            if not keeps(val):
+                problems.append("a sample already inside the limits would be changed (clip must be idempotent)")
             chk.decide(not problems, "C20.clip", WA("clip"), "[%s] leaf %s when %s" % (label, vt, ctxt),
                        why="; ".join(problems), node=st)
     chk.floor("C20.clip", n_leaves, 7, "conditional leaves of clip")
